@@ -958,3 +958,16 @@ pub mod noise {
 		}
 	}
 }
+
+/// Whether a funded channel is in `AwaitingRemoteRevoke` (it has signed a counterparty commitment
+/// that the peer has not yet revoked the predecessor of).
+pub fn channel_awaiting_remote_revoke<CM: crate::ln::channelmanager::AChannelManager>(
+	node: &CM, counterparty_node_id: &bitcoin::secp256k1::PublicKey,
+	channel_id: &crate::ln::types::ChannelId,
+) -> Option<bool> {
+	let cm = node.get_cm();
+	let per_peer_state = cm.per_peer_state.read().unwrap();
+	let peer_state = per_peer_state.get(counterparty_node_id)?.lock().unwrap();
+	let chan = peer_state.channel_by_id.get(channel_id)?.as_funded()?;
+	Some(chan.verif_is_awaiting_remote_revoke())
+}
